@@ -368,9 +368,11 @@ check("C02", "fault_enumeration",
       "bit 0 of the first and of the last byte (thorough: every chunk, bytes {all if <= 64, else 0,1,mid,last} x masks {0x01,0x80}, "
       "zeroed chunk). The channel's sender is the corrupt helper. Oracle: an honest helper fails / never produces output, or both "
       "honest helpers finish with consistent shares that determine exactly the untampered histogram. "
-      "distinct_nontrivial = faults whose interceptor changed a byte.",
+      "distinct_nontrivial = faults whose interceptor changed a byte. Component arm (opening a value): reveal and partial reveal of a MAC-upgraded Fp31 sharing and of a Boolean-array sharing in the DZKP malicious context, every helper excluded in turn, every byte x 4 masks (and every additive error for Fp31) of every reveal message: each honest helper that is meant to learn the value fails or learns the true value.",
       [{"name": "tamper", "config": "A", "test": "verif::c02::run", "timeout": {"quick": 1800, "thorough": 14400},
-        "require": {"any": {"tamper_rejected": 100, "channels_in_census": 100}}}],
+        "require": {"any": {"tamper_rejected": 100, "channels_in_census": 100}}},
+       {"name": "reveal", "config": "A", "test": "verif::c02r::run", "timeout": {"quick": 900, "thorough": 3600},
+        "require": {"any": {"reveal_faults": 400, "distinct:reveal_settings": 8}}}],
       assumptions=["one altered message per run (no adaptive multi-message strategies; those of the MAC layer are in C04)",
                    "cryptographic acceptance probabilities (2^-32 shuffle MAC, 2^-61 DZKP, 2^-252 Fp25519 MAC) are not explored",
                    "shard-to-shard channels are inside one helper's trust domain and are not tampered with"],
